@@ -91,6 +91,13 @@ mut("C17", "recordings-not-closed", IO,
     "recst.take(inf) # Ensure it'll be closed\n",
     "        del self._recordings[:]\n")
 
+mut("C17", "device-opened-with-default-channels", IO,
+    "                                          channels=self.channels,",
+    "                                          channels=channels,")
+mut("C17", "device-opened-with-float-format", IO,
+    "    self.stream = device_manager._pa.open(format=_STRUCT2PYAUDIO[dfmt],",
+    "    self.stream = device_manager._pa.open(format=_STRUCT2PYAUDIO['f'],")
+
 # ---- C15
 mut("C15", "no-dedupe", CO,
     "      if k not in key_list:\n        key_list.append(k)",
